@@ -11,7 +11,7 @@ from ..framework import Check
 from ..defs_common import FAM, run_impl, native_names
 from ..defs_reg_common import regen_cone
 from ..defs_reg_common import (new_file, rel_import, to_case, coq_closure, impl_flat, with_core, is_core_name,
-                               file_yaml, REG_HEADER, MISSING, EXC_CODE)
+                               file_yaml, REG_HEADER, MISSING, EXC_CODE, CORE, core_path)
 
 THEOREMS = [
     "C12_ties_to_code", "C12_fuel_sufficient", "C12_parse_is_run_of_trace", "C12_trace_visits_reachable_once",
@@ -341,6 +341,43 @@ def gen_cases(rng: random.Random, tier: str):
             bad.append(cl)
     for cl in bad:
         emit(cl, "malformed")
+
+    # H. the packaged core_defs.yaml named explicitly in an import list (legal, redundant when the core definitions are
+    #    imported anyway): before / after another import, alone, twice through two paths; ids at and beyond every range
+    #    boundary in the importing file and in a file imported after (or before) the core file
+    cp = core_path()
+    alt = cp.replace("/core_defs/core_defs.yaml", "/core_defs/../core_defs/core_defs.yaml")
+    layouts = {"core-then-common": ([(CORE, cp), (1, "common.yaml")], ["root", "common"]),
+               "common-then-core": ([(1, "common.yaml"), (CORE, cp)], ["root", "common"]),
+               "core-alone": ([(CORE, cp)], ["root"]),
+               "core-twice-two-paths": ([(CORE, cp), (CORE, "links/core.yaml"), (CORE, alt)], ["root"]),
+               "core-in-grandchild": ([(1, "common.yaml")], ["root", "common"])}
+    hv = [("hosts", v) for v in (-3, 0, 1, 32766, 32768)]
+    mv = [("modules", v) for v in (-1, 0, 3, 9, 10, 99, 100, 150, 199, 200)]
+    for lname, (imps, places) in layouts.items():
+        for place in places:
+            for sec, v in hv + mv:
+                if tier != "thorough" and rng.random() < 0.35:
+                    continue
+                cl = mk(2, [], icd=True, paths=["root.yaml", "common.yaml"])
+                cl["files"][0]["imports"] = list(imps)
+                if lname == "core-in-grandchild":
+                    cl["files"][1]["imports"] = [(CORE, cp)]
+                if lname == "core-twice-two-paths":
+                    cl["symlinks"] = {"links/core.yaml": cp}
+                cl["files"][1]["constants"].append(("COMMON_K", 3))
+                cl["files"][0 if place == "root" else 1][sec].append(("RNGX", v))
+                emit(cl, "explicit-core-import")
+    for lname in ("core-then-common", "core-alone"):          # without the automatic import: the core file is an ordinary import
+        cl = mk(2, [], icd=False, paths=["root.yaml", "common.yaml"])
+        cl["files"][0]["imports"] = list(layouts[lname][0])
+        cl["files"][0]["modules"].append(("RNGX", 150))
+        cl["files"][0]["messages"].append(("def", "USERMSG", 4321, False))
+        emit(cl, "explicit-core-import")
+        cl = mk(2, [], icd=False, paths=["root.yaml", "common.yaml"])
+        cl["files"][0]["imports"] = list(layouts[lname][0])
+        cl["files"][0]["messages"].append(("def", "CLASH_WITH_CORE", 80, False))
+        emit(cl, "explicit-core-import")
 
     # G. path identity: detours, symlinked file, symlinked directory, other cwd
     for variant in range(8):
